@@ -79,7 +79,7 @@ def first_diff(a, b):
     return min(len(a), len(b))
 
 
-def check_case(ctx, enc, msg, origin, name=None):
+def check_case(ctx, enc, msg, origin, name=None, label='plain'):
     if too_wide(msg):
         ctx.count('skipped_too_wide')
         return
@@ -91,7 +91,7 @@ def check_case(ctx, enc, msg, origin, name=None):
     vals = user_values(msg, ctx.rng)
     fj = R.flat_json(msg, vals)
     spec['flat_json'] = jsonable(fj)
-    mode = 'c' if msg.compressed else 'u'
+    mode = ('c' if msg.compressed else 'u') + ('' if label == 'plain' else '/' + label)
     nontrivial = bool(msg.ops) or msg.compressed or any(i // 100000 == 1 for i in msg.ids) or any(
         v is None for s in msg.subsets for v in s.values)
     try:
@@ -102,7 +102,7 @@ def check_case(ctx, enc, msg, origin, name=None):
                     'encoder refused conforming values: %s: %s' % (type(e).__name__, str(e)[:160]),
                     spec, exc=e)
         return
-    ctx.evaluated(msg.bytes.hex(), nontrivial, sample=dict(origin=origin, shape=name, ids=msg.ids,
+    ctx.evaluated(msg.bytes.hex() + label, nontrivial, sample=dict(origin=origin, shape=name, ids=msg.ids,
                                                            nsub=msg.nsub, compressed=msg.compressed,
                                                            edition=msg.edition))
     for op in msg.ops:
@@ -115,7 +115,7 @@ def check_case(ctx, enc, msg, origin, name=None):
             i = first_diff(out, msg.bytes)
             fr = R.parse_frame(msg.bytes)
             sec = max(k for k in fr.order if fr.sections[k][0] <= i)
-            ctx.violate('encode/u/bytes-differ/section%d/ops[%s]' % (sec, opsig(msg.ids)),
+            ctx.violate('encode/%s/bytes-differ/section%d/ops[%s]' % (mode, sec, opsig(msg.ids)),
                         'encoder output differs from the independently constructed message at octet %d '
                         '(section %d): %s vs %s' % (i, sec, out[i:i + 4].hex(), msg.bytes[i:i + 4].hex()),
                         spec, expected=msg.bytes.hex(), observed=out.hex())
@@ -180,11 +180,37 @@ def check_case(ctx, enc, msg, origin, name=None):
 
 def run(ctx):
     from pybufrkit.encoder import Encoder
+    from mon.gen.templates import scoped
     enc = Encoder()
+    # a second, long-lived encoder with template compilation on: the canonical bit stream does not depend on that option
+    # (used where compilation is claimed to preserve behaviour at all: `scoped` templates, C08's proviso)
+    encc = Encoder(compiled_template_cache_max=3)
+    D33 = cases.tables(33)[1]
     for name, msg in cases.shape_cases(ctx):
         check_case(ctx, enc, msg, 'shape', name)
         ctx.count('shape_cases')
         ctx.add('shapes', name)
+        if scoped(msg.ids, D33):
+            ctx.count('compiling_encoder_cases')
+            check_case(ctx, encc, msg, 'shape', name, label='compiling-encoder')
+    # same descriptor list, different tables (master version / local tables): one encoder object serves both
+    pairs = cases.version_sensitive_pairs(6)
+    lpairs = cases.local_sensitive_pairs()
+    for it in range(4 if ctx.quick else 40):
+        if not ctx.mine(it):
+            continue
+        form = ['plain', 'marker', 'assoc', 'first-order'][it % 4]
+        try:
+            if lpairs and it % 2:
+                ids, (ma, mb) = cases.local_pair_messages(ctx.rng, ctx.rng.choice(lpairs), compressed=bool(it % 3 == 0), form=form)
+            else:
+                ids, (ma, mb) = cases.version_pair_messages(ctx.rng, ctx.rng.choice(pairs), compressed=bool(it % 3 == 0), form=form)
+        except (R.Unsupported, KeyError):
+            continue
+        ctx.count('table_sensitive_pairs')
+        for m in (ma, mb, ma):
+            check_case(ctx, enc, m, 'table-pair', form)
+            check_case(ctx, encc, m, 'table-pair', form, label='compiling-encoder')
     n = 0
     while n < QUOTA[ctx.tier] and ctx.more():
         n += 1
@@ -192,6 +218,9 @@ def run(ctx):
         if c is None:
             continue
         check_case(ctx, enc, c[0], 'random')
+        if n % 3 == 0 and scoped(c[0].ids, cases.tables(c[1])[1]):
+            ctx.count('compiling_encoder_cases')
+            check_case(ctx, encc, c[0], 'random', label='compiling-encoder')
 
 
 def replay(ctx, case):
